@@ -398,6 +398,10 @@ func (g *fastGenerator) fieldItem(field *protogen.Field, fieldname string, messa
 			buf := `dAtA[iNdEx:postIndex]`
 			msgname := g.noStarOrSliceType(field)
 			g.P(`v := &`, msgname, `{}`)
+			// a repeated occurrence of the member that is already set merges into it
+			g.P(`if cur, ok := x.`, fieldname, `.(*`, field.GoIdent, `); ok && cur != nil && cur.`, field.GoName, ` != nil {`)
+			g.P(`v = cur.`, field.GoName)
+			g.P(`}`)
 			g.decodeMessage("v", buf, field.Message)
 			g.P(`x.`, fieldname, ` = &`, field.GoIdent, `{v}`)
 
